@@ -131,3 +131,27 @@ Fixpoint ref_hl2_loop (fuel : nat) (k : list N) (a b c : N) : N * N :=
 Definition ref_hashlittle2 (key : list N) (pc pb : N) : N * N :=
   let a0 := (3735928559 + lenN key + pc) mod M32 in
   ref_hl2_loop (S (length key)) key a0 a0 ((a0 + pb) mod M32).
+
+(* het_hash computed with the reference lookup3 instead of the transcribed code *)
+Definition het_hash_ref (name : list N) (hash_bits : N) : option (N * N) :=
+  let normalized := map ref_norm name in
+  let '(secondary, primary) := ref_hashlittle2 normalized 2 1 in
+  let full := primary * 4294967296 + secondary in
+  if hash_bits <? 64 then
+    if hash_bits <? 8 then None
+    else
+      let h := N.lor (full mod 2 ^ hash_bits) (2 ^ (hash_bits - 1)) in
+      Some (h, (h / 2 ^ (hash_bits - 8)) mod 256)
+  else Some (full, (full / 2 ^ 56) mod 256).
+
+(* reference one-at-a-time (Bob Jenkins), 64-bit state, lower-cased backslash name *)
+Definition ref_lower (c : N) : N := if (65 <=? c) && (c <=? 90) then c + 32 else c.
+Definition ref_oaat (name : list N) : N :=
+  let h := fold_left (fun h c =>
+             let ch := ref_lower (if c =? 47 then 92 else c) in
+             let h1 := (h + ch) mod M64 in
+             let h2 := (h1 + h1 * 1024) mod M64 in
+             N.lxor h2 (h2 / 64)) name 0 in
+  let h1 := (h + h * 8) mod M64 in
+  let h2 := N.lxor h1 (h1 / 2048) in
+  (h2 + h2 * 32768) mod M64.
